@@ -1,3 +1,4 @@
+pub mod admit;
 pub mod domain;
 pub mod grammar;
 pub mod model;
